@@ -299,6 +299,8 @@ class Waiting(State):
     DONE_CALLBACK = 'DONE_CALLBACK'
 
     _interruption = None
+    # A wake-up (result, exception) that arrived while an interruption was waiting to be delivered to ``execute``
+    _pending_wake_up: Optional[Tuple[Any, Optional[BaseException]]] = None
 
     def __str__(self) -> str:
         state_info = super().__str__()
@@ -349,6 +351,10 @@ class Waiting(State):
             # state is back to how it was before the interruption so that we can be
             # re-executed
             self._waiting_future = futures.Future()
+            if self._pending_wake_up is not None:
+                # A wake-up arrived after the interruption but before it was delivered: it is not lost
+                pending, self._pending_wake_up = self._pending_wake_up, None
+                self.wake_up(*pending)
             raise
 
         if result == NULL:
@@ -360,11 +366,24 @@ class Waiting(State):
 
     def resume(self, value: Any = NULL) -> None:
         assert self._waiting_future is not None, 'Not yet waiting'
+        self.wake_up(value)
 
-        if self._waiting_future.done():
+    def wake_up(self, result: Any = NULL, exception: Optional[BaseException] = None) -> None:
+        """Resolve the waiting future with a result or an exception, unless it has been resolved already.
+
+        If it holds an interruption that ``execute`` has not seen yet, the first wake-up is kept and handed to the
+        future that replaces it, so that it is not lost to a concurrent pause.
+        """
+        future = self._waiting_future
+        if future.done():
+            if self._pending_wake_up is None and isinstance(future.exception(), Interruption):
+                self._pending_wake_up = (result, exception)
             return
 
-        self._waiting_future.set_result(value)
+        if exception is not None:
+            future.set_exception(exception)
+        else:
+            future.set_result(result)
 
 
 class Excepted(State):
